@@ -34,8 +34,8 @@ class SimpleCookieJar:
                     if not domain.startswith("."):
                         domain = f".{domain}"
                     cookie = (
-                        self.jar.get(domain)
-                        if self.jar.get(domain)
+                        self.jar.get(domain.lower())
+                        if self.jar.get(domain.lower())
                         else http.cookies.SimpleCookie()
                     )
                     cookie.update(simple_cookie)
